@@ -18,6 +18,8 @@ import (
 	"time"
 
 	sqlite3 "modernc.org/sqlite"
+
+	"github.com/nuetzliches/hookaido/internal/verifhook"
 )
 
 const schemaVersion = 6
@@ -353,6 +355,7 @@ func NewSQLiteStore(dbPath string, opts ...SQLiteOption) (*SQLiteStore, error) {
 	for _, opt := range opts {
 		opt(s)
 	}
+	verifTuneSQLite(s)
 
 	if err := s.init(); err != nil {
 		_ = db.Close()
@@ -578,6 +581,7 @@ INSERT INTO queue_items (
 	}
 
 	s.observeSQLiteTx(sqliteTxClassWrite, startedAt, true)
+	verifhook.Point("sqlite.enqueue.after_commit")
 	s.signal()
 	return nil
 }
@@ -662,11 +666,13 @@ INSERT INTO queue_items (
 	if err != nil {
 		return mapQueueInsertError(err)
 	}
+	verifhook.Point("sqlite.enqueue.before_commit")
 
 	if err := s.commitTx(ctx, conn, startedAt, sqliteTxClassWrite); err != nil {
 		return err
 	}
 	committed = true
+	verifhook.Point("sqlite.enqueue.after_commit")
 	s.queueLikelyFull.Store(false)
 	s.signal()
 	return nil
@@ -826,7 +832,12 @@ func (s *SQLiteStore) EnqueueBatch(items []Envelope) (int, error) {
 	}
 
 	// Insert all items.
+	verifInserted := false
 	for _, p := range prepared {
+		if verifInserted {
+			verifhook.Point("sqlite.batch.between_inserts")
+		}
+		verifInserted = true
 		_, err := conn.ExecContext(ctx, `
 INSERT INTO queue_items (
   id, route, target, state, received_at, attempt, next_run_at,
@@ -851,11 +862,13 @@ INSERT INTO queue_items (
 			return 0, mapQueueInsertError(err)
 		}
 	}
+	verifhook.Point("sqlite.batch.before_commit")
 
 	if err := s.commitTx(ctx, conn, startedAt, sqliteTxClassWrite); err != nil {
 		return 0, err
 	}
 	committed = true
+	verifhook.Point("sqlite.batch.after_commit")
 	s.signal()
 	return len(prepared), nil
 }
@@ -1566,6 +1579,7 @@ func (s *SQLiteStore) withLeaseMutation(
 	}
 	if affected > 0 {
 		s.observeSQLiteTx(sqliteTxClassWrite, startedAt, true)
+		verifhook.Point("sqlite.lease.after_mutate")
 		return nil
 	}
 
@@ -3097,11 +3111,13 @@ func (s *SQLiteStore) beginImmediateWithRetry(ctx context.Context, conn *sql.Con
 }
 
 func (s *SQLiteStore) commitTx(ctx context.Context, conn *sql.Conn, startedAt time.Time, class sqliteTxClass) error {
+	verifhook.Point("sqlite.commit.before")
 	if _, err := conn.ExecContext(ctx, "COMMIT;"); err != nil {
 		s.observeSQLiteError(err)
 		s.observeSQLiteTx(class, startedAt, false)
 		return err
 	}
+	verifhook.Point("sqlite.commit.after")
 	s.observeSQLiteTx(class, startedAt, true)
 	return nil
 }
@@ -3186,8 +3202,10 @@ func (s *SQLiteStore) checkpointPassive() error {
 	var busyPages int
 	var walPages int
 	var checkpointedPages int
+	verifhook.Point("sqlite.checkpoint.before")
 	err := s.db.QueryRowContext(context.Background(), "PRAGMA wal_checkpoint(PASSIVE);").
 		Scan(&busyPages, &walPages, &checkpointedPages)
+	verifhook.Point("sqlite.checkpoint.after")
 	s.observeSQLiteCheckpoint(time.Since(startedAt), err)
 	return err
 }
